@@ -6,6 +6,7 @@
 //! Runs the cases of one shard of one property's workload against the real code, with the
 //! property's monitor watching, and prints one line `RESULT {json}` at the end.
 
+mod alloc_track;
 mod drive;
 mod gen;
 mod props;
@@ -18,6 +19,9 @@ use std::panic::{catch_unwind, AssertUnwindSafe};
 use std::time::Instant;
 
 use serde_json::{json, Value};
+
+#[global_allocator]
+static GLOBAL: alloc_track::Counting = alloc_track::Counting;
 
 #[derive(Clone, Copy, Debug, PartialEq, Eq)]
 pub enum Tier {
@@ -95,6 +99,10 @@ impl Out {
 }
 
 pub struct CaseCx {
+    /// this case is re-run alone (replay or isolation after a stall/crash)
+    pub only: bool,
+    /// the worker was restarted after a stall/crash
+    pub restarted: bool,
     pub seed: u64,
     pub case: u64,
     pub tier: Tier,
@@ -255,6 +263,10 @@ fn main() {
         let _ = log::set_logger(&LOGGER);
         log::set_max_level(log::LevelFilter::Debug);
     }
+    if a.prop == "c20-script" {
+        props::c20::write_script(a.seed, a.cases.unwrap_or(200), a.hashes.as_deref().expect("--hashes <path> names the script file"));
+        return;
+    }
     if a.prop == "c20-miri" || a.prop == "c20-san" {
         // sanitizer / Miri entry: no panic hook games, plain run
         props::c20::sanitizer_main(&a.prop, a.seed, a.cases.unwrap_or(200), a.shard);
@@ -308,6 +320,8 @@ fn main() {
         }
         out.cur_case = case;
         let cx = CaseCx {
+            only: a.only.is_some(),
+            restarted: a.start > 0,
             seed: util::case_seed(a.seed, &a.prop, 0, case),
             case,
             tier: a.tier,
